@@ -8,7 +8,9 @@
 //   RDI|RDF|RDIP|RDFP|RDS|RDE = value(s) | THROW | SKIPUB
 //   CFG ...                                           configurable_t histories (several objects, clones)
 //   DEFAULT <factory> <idhex> <namehex> <st>           every registered parameter of every factory object
-//   FACT <factory> <idhex> params=<n> ...              per-object summary of the factory enumeration
+//   FACT <factory> <idhex> params=<n> cls=<hex>         per-object summary of the factory enumeration; cls = demangled dynamic type
+//   CONST F|I <c++ expression> <value>                 the symbolic constants used by register_parameter calls, as compiled
+//                                                     (checked against the table of tools/checks/c19_params.py)
 //   FAIL <what> :: <context>                           direct property oracle violated (independent of the model)
 //   DONE ...
 // <st> = N | E <hexv> <n> <hexd>... | I v mn mx c c | F v mn mx c c | IP v1 v2 mn mx c c c | FP ... | S <hex>
@@ -34,9 +36,11 @@
 #include <nano/task.h>
 #include <nano/wlearner/criterion.h>
 #include <nano/wlearner/hinge.h>
+#include <cxxabi.h>
 #include <functional>
 #include <limits>
 #include <set>
+#include <typeinfo>
 
 using namespace nano;
 
@@ -1319,6 +1323,51 @@ void enum_typed_all(parameter_t& p, const string& ctx)
 
 long g_fact_objs = 0, g_fact_params = 0, g_fact_perturbed = 0;
 
+string demangled(const std::type_info& ti)
+{
+    int   status = 0;
+    char* d      = abi::__cxa_demangle(ti.name(), nullptr, nullptr, &status);
+    string r     = (status == 0 && d != nullptr) ? string(d) : string(ti.name());
+    std::free(d);
+    return r;
+}
+
+// the symbolic constants that appear as arguments of parameter_t::make_*: evaluated by the compiler here, resolved by a
+// table in tools/checks/c19_params.py there -- the check compares the two on every run
+void constants()
+{
+#define CF(expr) std::printf("CONST F %s %s\n", #expr, vh::hexf(static_cast<double>(expr)).c_str())
+#define CI(expr) std::printf("CONST I %s %lld\n", #expr, static_cast<long long>(expr))
+    CF(std::numeric_limits<scalar_t>::max());
+    CF(std::numeric_limits<scalar_t>::lowest());
+    CF(std::numeric_limits<scalar_t>::min());
+    CF(std::numeric_limits<scalar_t>::epsilon());
+    CF(std::numeric_limits<double>::max());
+    CF(std::numeric_limits<double>::lowest());
+    CF(std::numeric_limits<double>::epsilon());
+    CF(epsilon<scalar_t>());
+    CF(epsilon0<scalar_t>());
+    CF(epsilon1<scalar_t>());
+    CF(epsilon2<scalar_t>());
+    CF(epsilon3<scalar_t>());
+    CI(std::numeric_limits<int64_t>::max());
+    CI(std::numeric_limits<int64_t>::min());
+    CI(std::numeric_limits<int64_t>::lowest());
+    CI(std::numeric_limits<int32_t>::max());
+    CI(std::numeric_limits<int32_t>::min());
+    CI(std::numeric_limits<int>::max());
+    CI(std::numeric_limits<int>::min());
+    CI(std::numeric_limits<tensor_size_t>::max());
+    CI(std::numeric_limits<tensor_size_t>::min());
+    // the C++ types behind the typed reads value<T>() that the generator classifies (sizes in bits, signedness)
+    std::printf("CONST I sizeof(tensor_size_t)*signed %d\n", static_cast<int>(sizeof(tensor_size_t) * 8) * (std::is_signed_v<tensor_size_t> ? 1 : -1));
+    std::printf("CONST I sizeof(size_t)*signed %d\n", static_cast<int>(sizeof(size_t) * 8) * (std::is_signed_v<size_t> ? 1 : -1));
+    std::printf("CONST I sizeof(int)*signed %d\n", static_cast<int>(sizeof(int) * 8) * (std::is_signed_v<int> ? 1 : -1));
+    std::printf("CONST I sizeof(scalar_t) %d\n", static_cast<int>(sizeof(scalar_t) * 8));
+#undef CF
+#undef CI
+}
+
 template <class tobject>
 const configurable_t* as_config(const tobject& o)
 {
@@ -1436,7 +1485,7 @@ void factory(const char* fname, factory_t<tobject>& all, const tbehave& behave)
             const auto b0 = behave(*obj), b1 = behave(*cl);
             if (b0 != b1) fail("clone behaves differently", ctx + " :: " + b0 + " vs " + b1);
         }
-        std::printf("FACT %s %s params=%zu\n", fname, hexs(id).c_str(), nparams);
+        std::printf("FACT %s %s params=%zu cls=%s\n", fname, hexs(id).c_str(), nparams, hexs(demangled(typeid(*obj))).c_str());
     }
 }
 
@@ -1559,6 +1608,7 @@ int main(int argc, char** argv)
     exhaustive(g, thorough);
     random_histories(g, thorough ? 60000 : 6000);
     config_histories(g, thorough ? 6000 : 600);
+    constants();
     factories();
 
     std::printf("DONE cases=%ld ops=%ld accepted=%ld rejected=%ld nonconvertible=%ld factory_objects=%ld factory_params=%ld perturbed=%ld fails=%ld\n", g_cases, g_ops,
